@@ -537,6 +537,7 @@ pub open spec fn server_proved(c0: ScramClient, recv: Seq<sasl::Frame>, o: SaslO
 
 impl<'a> BuilderS<'a> {
 //@@ fn file=fe2o3-amqp/src/connection/builder.rs impl=`impl<Tls> Builder<'_, mode::ConnectorWithId, Tls>` name=negotiate_sasl
+//@@ attr #[verifier::loop_isolation(false)]
 //@@ shape loops=whilelet
 //@@ attr #[verifier::exec_allows_no_decreases_clause]
 //@@ generics
